@@ -29,6 +29,7 @@ func checkC18(c *Ctx) {
 
 	c.Rule("C18/R8", "collected keys are sorted by a total order on the keys themselves: every slice of map keys gathered in a map range is sorted by a standard value sort, or by a comparator whose every comparison is between the elements' own components or their String/StringValues renderings (nothing lossy such as a normalised date, nothing stateful such as a projection's observation order) and which, for struct keys, compares every field")
 	c.Rule("C18/R9", "a summary is a function of its point's samples: every table in benchseries that remembers computed results is keyed by every input of the remembered computation, verbatim (a product of hashes is not the pair of samples)")
+	c.Rule("C18/R15", "a remembered trial is the right trial: every one-slot cache in benchseries is reused only when every input of the cached computation takes part in the hit test")
 	c.Rule("C18/R14", "a sort comparison compares element i with element j: no comparison in a func(i, j int) bool closure of benchseries has both operands computed from the same index")
 	c.Rule("C18/R13", "no order statistic reads past its sample: where benchseries tests a position against a length, every later read at that base stays within what was tested (same matcher as C07/R14)")
 	c.Rule("C18/R12", "per-table collections are per table: no local map made before a loop is filled inside the loop and consumed whole (ranged, measured, handed on) inside the same loop")
@@ -76,6 +77,7 @@ func checkC18(c *Ctx) {
 	c18PerTable(c, p)
 	c18Bounds(c, p)
 	c18LessComparesTwo(c, p, "C18/R14", "benchseries", "cmd/benchseries")
+	slotMemoRule(c, p, "C18/R15", true, "benchseries")
 }
 
 // sortsParam: callee sorts parameter k on every return, with no element store afterwards.
